@@ -16,7 +16,8 @@ CHECKS.update({
                   "Model tied to the code on every run by vm_compute correspondence over generated histories.",
              note=EXEC_NOTE, technique="Coq proof (mutual fuel induction, simulation of executor by spec evaluator) + vm_compute correspondence", design="6/C01"),
  "C05": dict(text="Coq theorem: for every failure position and error kind the cache invariant is preserved, the call stack restored, held values and definitions unchanged, the error recorded, "
-                  "and later evaluations return the specification value (retry). Clause 'failing chain holds no value' is covered by correspondence+oracle only (partial).",
+                  "and later evaluations return the specification value (retry); no element of the failing chain (the specification chain, which by C17 is the recorded traceback) holds a computed value "
+                  "afterwards - none at all in states reached by histories (depth-limit error excluded from this clause).",
              note=EXEC_NOTE + "; C-stack crash clause outside any model", technique="Coq proof (failure branch of the executor simulation) + vm_compute correspondence", design="6/C05"),
 })
 CHECKS.update({
@@ -46,10 +47,12 @@ CHECKS.update({
                   "values; invalidation reaches values computed through uncached cells (object-node coverage). Independence of the specification value from the flags is not mechanised "
                   "(None check: finding D33); checked by the two-flag-assignment differential on every run.",
              note=EXEC_NOTE + "; defs_ok, s_reent=false, no OpSetRef", technique="Coq proof (set_cached preserves Quiet; coverage of uncached cells) + vm_compute correspondence + flag-assignment differential", design="6/C09"),
- "C17": dict(text="Coq theorem (partial): after any failing top-level evaluation from any invariant state the recorded traceback is non-empty, outermost entry is the requested element, the error "
-                  "kind is recorded and the rolled-back list is empty (earlier failures leave no trace). Exact chain and line numbers are checked by correspondence (model computes them) "
-                  "and the reference-interpreter oracle on every run.",
-             note=EXEC_NOTE + "; traceback.TracebackException frame/line semantics modelled", technique="Coq proof (partial) + vm_compute correspondence of full tracebacks + executing-chain oracle", design="6/C17"),
+ "C17": dict(text="Coq theorems: from any state satisfying the executor invariant - hence after any sequence of earlier evaluations whatever they returned (escaped failures, failures caught by "
+                  "formulas, no restriction on the formulas), and after any edit history admitted by C02's hypotheses - a failing top-level evaluation records exactly the specification's error "
+                  "and exactly the specification's executing chain (Chain.spec_chain: a function of current definitions and inputs only; elements outermost first with the line of the next call "
+                  "or of the error), and nothing stays in the rolled-back list; a successful evaluation leaves nothing behind. Excluded from the theorem: the recursion-depth error. The model's "
+                  "full tracebacks are compared with mx.get_traceback()/get_error() on every run, and with the reference-interpreter oracle.",
+             note=EXEC_NOTE + "; traceback.TracebackException frame/line semantics modelled; KDeep excluded", technique="Coq proof (chain-instrumented specification, simulation sim3_all by induction on fuel) + vm_compute correspondence of full tracebacks + executing-chain oracle", design="6/C17"),
  "C03": dict(text="Coq proof that for every sequence of space/base/member edits the model's members equal the from-scratch re-derivation along the C3 order (plus name uniqueness, the C3 laws "
                   "and evaluation in the sub space), model tied to /repo after every operation by vm_compute correspondence on random and exhaustive small ordered-base DAGs. The pinned tree "
                   "deviates on D1 D2 D2b D3 D33 D34 (D23): recorded findings, triggers avoided, witnesses replayed.",
